@@ -12,6 +12,7 @@ CONSTANTS
   T = 1
   MaxTime = 2
   EarlyCancel = TRUE
+  NoTimeouts = FALSE
   Mode = "mc"
   SymBreak = FALSE
   Dev_OpnTimeoutWedge = FALSE
